@@ -127,7 +127,7 @@ def judge(sessions, cmp=("value",), mode="used", maxsteps=60000, trace=False, ti
             v.status, v.info = "guard", guard
             continue
         rec = [to_rec(o) for o in res]
-        ts = {"id": sid, "items": [{"perr": True} if (isinstance(it, dict) and it.get("perr")) else {"ast": it} for it in s["items"]],
+        ts = {"id": sid, "items": [({"perr": True, "cerr": True} if it.get("cerr") else {"perr": True}) if (isinstance(it, dict) and it.get("perr")) else {"ast": it} for it in s["items"]],
               "stdin": [[c for c in l] for l in s.get("stdin", [])], "rec": rec, "cmp": list(s.get("cmp", cmp))}
         tlc_in.append(ts)
         v.tlc_in = ts
